@@ -86,7 +86,11 @@ func runC08(c *Ctx) {
 		fn := f.Function
 		b := ana.NewBuilder(c.P, fn)
 		k := "load(faddr<K>(p0))"
-		sum := "obj(alloc<math/big.Int>, call<(*math/big.Int).SetBytes>(self, p1), call<(*math/big.Int).Add>(self, self, " + k + "), call<(*math/big.Int).Mod>(self, self, " + n + "))"
+		// (I_L + K) mod N computed in place in the parsed I_L, or into a fresh value (big.Int results depend on the operands only)
+		ilv := "obj(alloc<math/big.Int>, call<(*math/big.Int).SetBytes>(self, p1))"
+		sum := "alt(obj(alloc<math/big.Int>, call<(*math/big.Int).SetBytes>(self, p1), call<(*math/big.Int).Add>(self, self, " + k + "), call<(*math/big.Int).Mod>(self, self, " + n + ")), " +
+			"obj(alloc<math/big.Int>, call<(*math/big.Int).Add>(self, " + ilv + ", " + k + "), call<(*math/big.Int).Mod>(self, self, " + n + ")), " +
+			"obj(alloc<math/big.Int>, call<(*math/big.Int).Add>(self, " + k + ", " + ilv + "), call<(*math/big.Int).Mod>(self, self, " + n + ")))"
 		rng := plainEdges(edgesMatching(b, rangeRej))
 		zero := plainEdges(edgesMatching(b, "bin<==>("+bigSign+"("+sum+"), 0)"))
 		r.Check(len(rng) == 1, "C08.sibling-guards.private.range", c.P.Pos(fn.Pos()), "private side rejects I_L >= N")
